@@ -16,11 +16,14 @@ pub enum St {
     Filled,
     Cancelled,
     Rejected,
+    /// a status the documentation does not know (only produced by a changed bourse; never equal to
+    /// anything the oracles expect)
+    Other,
 }
 
 impl St {
     pub fn terminal(self) -> bool {
-        matches!(self, St::Filled | St::Cancelled | St::Rejected)
+        matches!(self, St::Filled | St::Cancelled | St::Rejected | St::Other)
     }
     pub fn code(self) -> u8 {
         match self {
@@ -29,6 +32,7 @@ impl St {
             St::Filled => 2,
             St::Cancelled => 3,
             St::Rejected => 4,
+            St::Other => 5,
         }
     }
 }
